@@ -35,7 +35,8 @@ TRUSTED_BASE = [
 ASSUMPTIONS = [
     "a crash is a process kill; power loss is outside the model", "os.replace is atomic",
     "single task (comm=None); the restarted call gets the same arguments",
-    "n_samples >= 1 (MAP runs use SampleList.save without a mean file: same _save_to_disk, not modelled)",
+    "MAP runs (n_samples = 0: one sample file, no mean file, resume through SampleList.load) are not in the Lean model; they "
+    "are covered by the oracle only (every op boundary and partial flush of a 3-iteration run, both strategies)",
 ]
 VOLATILE = ("minisanity.txt", "counting_report.txt")      # contain datetime.now(): never compared byte-wise
 
@@ -534,7 +535,7 @@ def _corpus(ctx):
 def run(ctx):
     import random
     import time
-    jobs = [("corpus", None)] + [("cfg", c) for c in _configs(ctx)] + ([("opaque", None)] if not ctx.quick else [])
+    jobs = [("corpus", None)] + [("cfg", c) for c in _configs(ctx)] + [("map", "latest"), ("map", "all")] + ([("opaque", None)] if not ctx.quick else [])
     rngs = [random.Random(ctx.rng.randrange(10 ** 9)) for _ in jobs]
     errs = []
 
@@ -547,15 +548,17 @@ def run(ctx):
                 _corpus(sh)
             elif kind == "cfg":
                 _run_cfg(sh, cfg)
+            elif kind == "map":
+                _run_opaque(sh, kind, cfg)
             else:
-                _run_opaque(sh)
+                _run_opaque(sh, kind)
         except BaseException as e:  # noqa: BLE001 - re-raised in the main thread
             errs.append(e)
         with _LOCK:
-            ctx.extra.setdefault("phase_s", {})[kind + ("" if cfg is None else ":" + cfg["strategy"] + str(cfg["seed"]))] = \
+            ctx.extra.setdefault("phase_s", {})[kind + ("" if cfg is None else ":" + (cfg if isinstance(cfg, str) else cfg["strategy"] + str(cfg["seed"])))] = \
                 round(time.time() - t0, 1)
     # the configurations are independent: one thread each (they spend their time waiting for worker processes)
-    width = 3 if ctx.quick else 2
+    width = 5 if ctx.quick else 3
     pending = list(zip(jobs, rngs))
     while pending:
         batch, pending = pending[:width], pending[width:]
@@ -759,26 +762,43 @@ def _report_failures(ctx, cfg, allsc, ref, confirmed):
                 ctx.counterexample(dict(cfg=cfg, kills=sc["kills"]), *r)
 
 
-def _run_opaque(ctx):
-    """configurations the model does not cover (plots, exported operator outputs as HDF5, transitions): oracle only,
-    simulated kills at every second real op boundary"""
+def _run_opaque(ctx, kind="opaque", which=None):
+    """configurations the model does not cover — `opaque`: plots and exported operator outputs (HDF5); `map`: MAP runs
+    (n_samples = 0: SampleList.save of one sample, no mean file, resume through SampleList.load) — oracle only: simulated
+    kills at real op boundaries (every second one for `opaque`, all of them plus every partial flush for `map`)"""
     seed = ctx.rng.randrange(1000)
-    for cfg in (dict(n=2, seed=seed, n_samples=1, strategy="all", r0=False, plots=True, export=True),):
+    if kind == "opaque":
+        cfgs = (dict(n=2, seed=seed, n_samples=1, strategy="all", r0=False, plots=True, export=True),)
+    else:
+        cfgs = (dict(n=3, seed=seed, n_samples=0, strategy="latest", r0=False),
+                dict(n=3, seed=seed + 1, n_samples=0, strategy="all", r0=ctx.rng.random() < 0.5))
+        cfgs = tuple(c for c in cfgs if which in (None, c["strategy"]))
+    for cfg in cfgs:
         try:
-            o0 = _run_session(f"opq{seed}", cfg, [])
+            o0 = _run_session(f"{kind}{cfg['strategy']}{seed}", cfg, [])
             ref = o0["ref"]
             if ref["status"] != "done":
+                ctx.counterexample(dict(op="ops", cfg=cfg), f"the uninterrupted run raised {ref['exc']}",
+                                   dict(driver="cl.optimize_kl", phase="uninterrupted", error=(ref["exc"] or {}).get("error")))
                 continue
-            kills = [[dict(at=k, when="before")] for k in range(0, len(ref["ops"]) + 1, 2)]
-            outs = _session_chunks(ctx, cfg, [dict(sid=i, kills=k) for i, k in enumerate(kills)], 6)
+            step = 2 if kind == "opaque" else 1
+            kills = [[dict(at=k, when="before")] for k in range(0, len(ref["ops"]) + 1, step)]
+            if kind == "map":
+                kills += [[dict(at=k, when="partial", frac=[1, 2])] for k, ev in enumerate(ref["ops"])
+                          if ev["op"] == "flush" and ev.get("n", 0) >= 2]
+                if ctx.quick:
+                    kills = kills[::2]
+            outs = _session_chunks(ctx, cfg, [dict(sid=i, kills=k) for i, k in enumerate(kills)], ctx.n(2, 6))
         except Infra as e:
-            ctx.notes.append(f"opaque-output configuration skipped: {e}")
+            ctx.notes.append(f"{kind} configuration skipped: {e}")
             continue
+        _SESS[json.dumps(cfg, sort_keys=True)] = o0
         allsc = {k: v for o in outs for k, v in o["scen"].items()}
         for sid, sc in allsc.items():
             ctx.case(dict(cfg=cfg, kills=sc["kills"]))
-            ctx.stat("opaque-config:kill")
-        _report_failures(ctx, cfg, allsc, ref, set())
+            ctx.stat(f"{kind}-config:{cfg['strategy']}:kill")
+        picked = _real_crosscheck(ctx, cfg, allsc, ref) if kind == "map" else set()
+        _report_failures(ctx, cfg, allsc, ref, picked)
 
 
 def search(ctx):
